@@ -108,9 +108,14 @@ def rnd_object(r, rsa):
                                 (enums.CryptographicAlgorithm.HMAC_SHA256, 32), (enums.CryptographicAlgorithm.CHACHA20, 32)])
         o = pobj.SymmetricKey(alg, nbytes * 8, rnd_bytes(r, nbytes), masks=masks, name=name, key_wrapping_data=kw)
     elif t == "PublicKey":
-        o = pobj.PublicKey(enums.CryptographicAlgorithm.RSA, 1024, rsa["pub"], enums.KeyFormatType.PKCS_1, masks=masks, name=name, key_wrapping_data=kw)
+        # every key format the object class accepts (the bytes are what they are: the format is a stored field)
+        o = pobj.PublicKey(enums.CryptographicAlgorithm.RSA, 1024, rsa["pub"],
+                           r.choice([enums.KeyFormatType.PKCS_1] * 2 + [enums.KeyFormatType.X_509, enums.KeyFormatType.RAW]),
+                           masks=masks, name=name, key_wrapping_data=kw)
     elif t == "PrivateKey":
-        o = pobj.PrivateKey(enums.CryptographicAlgorithm.RSA, 1024, rsa["priv"], enums.KeyFormatType.PKCS_8, masks=masks, name=name, key_wrapping_data=kw)
+        o = pobj.PrivateKey(enums.CryptographicAlgorithm.RSA, 1024, rsa["priv"],
+                            r.choice([enums.KeyFormatType.PKCS_8] * 2 + [enums.KeyFormatType.PKCS_1, enums.KeyFormatType.RAW]),
+                            masks=masks, name=name, key_wrapping_data=kw)
     elif t == "SplitKey":
         method = r.choice(list(enums.SplitKeyMethod))
         prime = r.choice([2 ** 63, 2 ** 64 - 59, 2 ** 127 - 1, 2 ** 255 - 19, 104729, 2 ** 63 - 25]) if method == enums.SplitKeyMethod.POLYNOMIAL_SHARING_PRIME_FIELD else None
@@ -118,7 +123,9 @@ def rnd_object(r, rsa):
               "prime": str(prime) if prime is not None else None}
         spec["split"] = sp
         o = pobj.SplitKey(cryptographic_algorithm=enums.CryptographicAlgorithm.AES, cryptographic_length=128, key_value=rnd_bytes(r, 16),
-                          cryptographic_usage_masks=masks, name=name, key_format_type=enums.KeyFormatType.RAW, key_wrapping_data=kw,
+                          cryptographic_usage_masks=masks, name=name, key_wrapping_data=kw,
+                          key_format_type=r.choice([enums.KeyFormatType.RAW] * 2 + [enums.KeyFormatType.OPAQUE, enums.KeyFormatType.PKCS_8,
+                                                                                 enums.KeyFormatType.TRANSPARENT_SYMMETRIC_KEY]),
                           split_key_parts=sp["parts"], key_part_identifier=sp["id"], split_key_threshold=sp["thr"],
                           split_key_method=method, prime_field_size=prime)
     elif t == "Certificate":
@@ -188,6 +195,7 @@ def _history(args):
     uids = []
     skipped = 0
     wrapkey = None
+    active = set()
     try:
         for i in range(nsteps):
             D.CLOCK.now += r.choice([1, 2, 3])
@@ -275,8 +283,23 @@ def _history(args):
                 try:
                     cl.activate(str(u))
                     steps.append({"kind": "state", "uid": u, "state": "Active"})
+                    active.add(u)
                 except Exception:
                     steps.append({"kind": "noop", "why": "activate refused"})
+            elif k < 0.985:
+                # the owner destroys an object - most often the newest one, so that whatever the store does with the
+                # identifiers and rows of destroyed objects shows in what is stored next
+                cand = [u for u in uids if u not in active]
+                if not cand:
+                    steps.append({"kind": "noop", "why": "nothing to destroy"})
+                    continue
+                u = cand[-1] if r.random() < 0.7 else r.choice(cand)
+                try:
+                    cl.destroy(str(u))
+                    steps.append({"kind": "destroy", "uid": u})
+                    uids.remove(u)
+                except Exception as e:
+                    steps.append({"kind": "noop", "why": "destroy refused: %s" % str(e)[:60]})
             else:
                 drv.restart()
                 steps.append({"kind": "restart"})
